@@ -18,6 +18,11 @@ Reading of the property made explicit here:
 * *a history* is a list of `PerformChecking` calls `(clock reading, value, batch)` with non-decreasing clock
   readings; which calls reach a controller (earlier rules may block, a queued request sleeps) is the slot's
   business (`slotCheck`) and irrelevant to the statements, which quantify over all such lists.
+* *reloads.*  `reload` models `hotspot.LoadRules` on a module that already holds rules (controller / statistic reuse);
+  `reload_no_shared_statistic` shows that no statistic is shared between two rules of a generation, so every rule in
+  force is, at any time, a controller with caches of its own to which the per-controller theorems apply (for a rule that
+  inherits a statistic with *changed* limits the bounds restart from the inherited cells: `Sync`/`TokOk`-style
+  hypotheses are about the state, not about how it came to be).
 * *int64.*  The model wraps where Go wraps; each theorem carries the decidable no-wrap guard it needs.
 * *known finding `hot-throttle-floor`.*  The throttling interval is `⌊batch·D·1000/T⌋` whole ms.  `pacing` is
   proved for that interval; it is the property's real-valued `batch·D/T` exactly when `T ∣ batch·D·1000`
@@ -540,6 +545,59 @@ theorem over_capacity_witness :
     let r : Rule := { res := "r", cb := 0, T := 1, D := 1, cap := 1 }
     (forVal "a" (runReject r ⟨1, []⟩ ⟨1, []⟩ [⟨0, "a", 1⟩, ⟨0, "b", 1⟩, ⟨0, "a", 1⟩])).map (·.2) = [.pass, .pass] ∧
     (runReject r ⟨1, []⟩ ⟨1, []⟩ (reqsOf "a" [⟨0, "a", 1⟩, ⟨0, "b", 1⟩, ⟨0, "a", 1⟩])).map (·.2) = [.pass, .block] := by
+  decide
+
+/-! ## rule reload: per-value state is fresh or inherited from exactly one old rule, never shared
+
+`reload` builds the new generation from the plan `planFrom` (the code's `Equals` / `IsStatReusable` scan):
+each rule in force is a brand-new controller (`Origin.fresh`), an old controller taken over unchanged
+(`Origin.same`), or a new controller on the statistic of one old controller (`Origin.stat`). -/
+
+/-- **no shared statistic.**  The old controllers drawn on by a reload are pairwise different (and are old
+    controllers): no `ParamsMetric` — no per-value bucket — is ever handed to two rules of the new generation, so the
+    per-rule independence and envelope statements above keep applying to every rule after any reload. -/
+theorem reload_no_shared_statistic (base : Nat) (old : List Ctl) (rs : List Rule)
+    (hnd : (old.map (·.gid)).Nodup) :
+    (planOlds (planFrom base (old.map fun c => (c.gid, c.rule)) 0 rs)).Nodup ∧
+    ∀ g ∈ planOlds (planFrom base (old.map fun c => (c.gid, c.rule)) 0 rs), g ∈ old.map (·.gid) := by
+  have e : (old.map fun c => (c.gid, c.rule)).map Prod.fst = old.map (·.gid) := by
+    rw [List.map_map]; rfl
+  have := plan_olds base rs (old.map fun c => (c.gid, c.rule)) 0 (by rw [e]; exact hnd)
+  rw [e] at this
+  exact this
+
+/-- the first load of a module finds nothing to reuse: every rule in force starts with empty caches -/
+theorem first_load_fresh (base : Nat) (rs : List Rule) :
+    ∀ c ∈ reload base [] rs, c.time.items = [] ∧ c.token.items = [] := by
+  have h : ∀ (i : Nat) (rs : List Rule), ∀ x ∈ planFrom base [] i rs, x.2.2 = Origin.fresh := by
+    intro i rs
+    induction rs generalizing i with
+    | nil => intro x hx; simp [planFrom] at hx
+    | cons r rs ih =>
+      intro x hx
+      unfold planFrom at hx
+      split at hx
+      · exact ih _ x hx
+      · simp only [List.findIdx?_nil] at hx
+        rcases List.mem_cons.mp hx with rfl | hx
+        · rfl
+        · exact ih _ x hx
+  intro c hc
+  unfold reload at hc
+  obtain ⟨x, hx, rfl⟩ := List.mem_map.mp hc
+  obtain ⟨g, r, o⟩ := x
+  have := h 0 rs _ hx
+  simp only at this
+  subst this
+  exact ⟨rfl, rfl⟩
+
+/-- the reload shape of the seeded change C05-r2-1: one rule is split into two stat-reusable ones — the first
+    inherits the statistic, the second gets its own -/
+theorem reload_split_example :
+    let g1 : Rule := { res := "r", cb := 0, idx := 0, T := 5, D := 1 }
+    let p0 : Rule := { res := "r", cb := 0, idx := 0, T := 1, D := 1 }
+    let p1 : Rule := { res := "r", cb := 0, idx := 1, T := 1, D := 1 }
+    (planFrom 1000 [(0, g1)] 0 [p0, p1]).map (·.2.2) = [Origin.stat 0, Origin.fresh] := by
   decide
 
 /-! ## the hypotheses are satisfiable (non-vacuity): the theorems applied to concrete histories -/
